@@ -55,7 +55,10 @@ type Tree struct {
 	leafSequence   uint32
 	branchSequence uint32
 	isReplaying    bool
-	evictionDepth  int8
+	// replayValue is the stored value of the leaf being replayed: while replaying the change log,
+	// Set is given the leaf's stored hash in place of the value.
+	replayValue   []byte
+	evictionDepth int8
 }
 
 type TreeOptions struct {
@@ -404,6 +407,10 @@ func (tree *Tree) recursiveSet(node *Node, key []byte, value []byte) (
 			tree.mutateNode(node)
 			if tree.isReplaying {
 				node.hash = value
+				if tree.storeLeafValues {
+					// the leaf may stay in memory after the replay: it needs its value
+					node.value = tree.replayValue
+				}
 			} else {
 				if wasDirty {
 					tree.workingBytes -= node.sizeBytes()
@@ -663,6 +670,10 @@ func (tree *Tree) NewLeafNode(key []byte, value []byte) *Node {
 
 	if tree.isReplaying {
 		node.hash = value
+		if tree.storeLeafValues {
+			// the leaf may stay in memory after the replay: it needs its value
+			node.value = tree.replayValue
+		}
 	} else {
 		node.value = value
 		node._hash()
